@@ -1,7 +1,9 @@
 (* Eval15.v — evaluation of C15 observations: real vs model (Plumb/Model.v), real vs specification.
 
    Observation lines (harness/internal/c15):
-     (wf   PLUGIN SIG REAL)         REAL = 1 if the derived function type-checks, else 0
+     (wf   PLUGIN SIG REAL)         REAL = 1 if the derived function type-checks and has the type of
+                                    the wrapper the property speaks of (same parameters as the original
+                                    function, redistributed; the original's results), else 0
      (call PLUGIN SIG ARGS REAL)    REAL = (ret (EVENT ...) (RESULT ...)), EVENT = (LEVEL (ARG ...)),
                                     or the symbol panic (never equal to a prediction)
    PLUGIN = curry | flip | apply | uncurry | rt (Uncurry of Curry) | tuple
@@ -227,6 +229,27 @@ Definition naming_class (sh : shape) : string :=
   (if existsb has_pre rs then "+rprefix" else "") ++
   (if level_clash sh then "+dup" else "").
 
+(* higher-order signatures: a result / a parameter of the original function is itself a function (the
+   harness carries the argument id in a closure; type symbols fnN, fnU, ... and the named function
+   type HF).  The model is untyped and the theorems quantify over every result function [res], so a
+   function-valued result is a value like any other: it is returned, never applied. *)
+Definition ty_is_fn (t : ty) : bool :=
+  match t with
+  | TBase n => prefix "fn" n || String.eqb n "HF"
+  | TFunc _ _ _ => true
+  end.
+
+Definition any_fn (l : list (name * ty)) : bool := existsb (fun p => ty_is_fn (snd p)) l.
+
+Definition hof_class (sh : shape) : string :=
+  match sh with
+  | ShSig s => (if any_fn (s_params s) then "+fnparam" else "") ++
+               (if any_fn (s_results s) then "+fnresult" else "")
+  | ShCsig c => (if any_fn (c_outer c ++ c_inner c)%list then "+fnparam" else "") ++
+                (if any_fn (c_results c) then "+fnresult" else "")
+  | ShTuple _ => ""
+  end.
+
 Definition nparams (sh : shape) : nat :=
   match sh with ShSig s => List.length (s_params s)
               | ShCsig c => (List.length (c_outer c) + List.length (c_inner c))%nat
@@ -237,7 +260,7 @@ Definition nresults (sh : shape) : nat :=
               | ShTuple n => n end.
 
 Definition tag_of (plugin : string) (sh : shape) : string :=
-  plugin ++ "/" ++ naming_class sh ++ "/n" ++ itoa (nparams sh) ++ "/r" ++ itoa (nresults sh).
+  plugin ++ "/" ++ naming_class sh ++ hof_class sh ++ "/n" ++ itoa (nparams sh) ++ "/r" ++ itoa (nresults sh).
 
 Definition flags_tag (l : list sexp) : string :=
   match l with
